@@ -48,6 +48,30 @@ CHECKS = {
    text="Fault enumeration on the implementation: every scenario call tree within the depth bound (frames with pre/post effects SSTORE/LOG, every call kind with values 0/1/more-than-balance into child frames, a precompile or a code-less account, 7 terminators) on the listed forks with Aspects bound to every contract; at every Aspect execution the scripted runtime answers ok / out of gas / revert / other failure / provider failure / ok-burning-all-gas, all answer vectors with at most k non-default answers; after each execution the storage of every contract, success flags and return-data sizes seen by callers, balances, nonces, code, self-destructs and logs are compared with a reference interpreter of the scenario AST in which a failed frame and its descendants contribute nothing.",
    tech="stateless exhaustive enumeration of scenario trees x fault (answer) vectors up to a deviation bound, executed on the real EVM + real djpm.runAspect with a scripted stub runner; comparison with a reference interpreter of the scenario language",
    note="The WASM runtime is outside the explored system (stub at run.Runner)."),
+ "C05": dict(cat="fault_enumeration", ref="DESIGN.md §4 C05",
+   text="Fault enumeration on the implementation: scenario call trees (depth 2 full alphabet, depth 3 chains) x every subset of contracts with Aspects bound x 1-2 Aspects per join point x calldata lengths {0,1,4,32,33} x values x the join-point switch toggled between consecutive top-level calls on one EVM x answer vectors with <= k non-default answers; the observed sequence of Aspect executions (join point, contract, aspect order, request fields From/To/Data/Value/Index, return data and error for post) must equal the sequence the scenario denotes and every execution must lie at the right place between the debug tracer's frame and step events.",
+   tech="stateless exhaustive enumeration of scenario trees x configurations x fault vectors up to a deviation bound, executed on the real EVM + real djpm.runAspect with a scripted stub runner; comparison with a reference interpreter of the scenario language",
+   note="Message call is read as the CALL kind (EVM.Call), the only instrumented path."),
+ "C06": dict(cat="fault_enumeration", ref="DESIGN.md §4 C06",
+   text="Fault enumeration on the implementation: scenario call trees with Aspects bound everywhere x 1-2 Aspects x answer vectors over {burn 0/1/100/all, out of gas, revert, other failure, provider failure} with <= k deviations; for every call the gas before the callee's first instruction, the gas the caller gets back (computed from the caller's own step gas around the call), the recorded leftovers and the Aspect exit events are checked against what the join points left; out-of-gas must surface as the identical vm.ErrOutOfGas with nothing returned; a differential run without burns checks conservation.",
+   tech="stateless exhaustive enumeration of scenario trees x fault vectors up to a deviation bound, executed on the real EVM + real djpm.runAspect with a scripted stub runner; comparison with a reference interpreter of the scenario language and with the burn-free execution",
+   note="Leftover after non-out-of-gas pre failures and Aspect reverts is not determined by the statement and only bounded by the supplied gas."),
+ "C07": dict(cat="model_checking", ref="DESIGN.md §4 C07",
+   text="Bounded exhaustive exploration on the implementation: scenario call trees with failures at every position (terminators, refusals, static faults, injected join-point failures) x sequences of 1 and 3 top-level invocations on one EVM, plus self-recursion to the 1024 depth limit; after the last return the call tree is inspected through its public API only: dense indices in entry order, FindCall consistent, one parent with a smaller index that lists the node once in increasing order, ParentOf/ChildrenOf consistent, Root is node 0, cursor nil.",
+   tech="stateless exhaustive enumeration of scenario trees x fault vectors x invocation sequences, executed on the real EVM + real djpm.runAspect with a scripted stub runner; comparison with a reference interpreter of the scenario language (node count and parent relation)",
+   note=""),
+ "C08": dict(cat="model_checking", ref="DESIGN.md §4 C08",
+   text="Bounded exhaustive exploration on the implementation: scenario call trees x memory-reuse patterns after each call x all failure kinds x join points on/off, plus the depth-limit recursion; every CALL/CREATE/CREATE2 attempt the scenario denotes (refused ones included) must be recorded once, in program order under the issuing frame, with caller, target, value and input as at the call, gas of the frame's enter event, and return data / error / leftover as handed back (debug-tracer exit events, entry-point results).",
+   tech="stateless exhaustive enumeration of scenario trees x fault vectors, executed on the real EVM + real djpm.runAspect with a scripted stub runner; comparison with a reference interpreter of the scenario language and with a shadow recorder over debug-tracer events",
+   note="Open finding: recorded calldata aliases the caller's memory (known_findings.txt)."),
+ "C10": dict(cat="model_checking", ref="DESIGN.md §4 C10",
+   text="Bounded exhaustive exploration on the implementation: scenario call trees with journal groups (register + store + journal; repeated; a,b,a) at every effect position of every frame, under all six call kinds, with frames that fail, with repeated top-level invocations and with join-point failures; for every account and variable the recorded map call-index -> value list must equal the attribution the scenario denotes (storage-context account, innermost CALL/CREATE node, immediate repeats collapsed, failed frames kept) and nothing may be filed elsewhere.",
+   tech="stateless exhaustive enumeration of scenario trees x invocation sequences x fault vectors, executed on the real EVM + real djpm.runAspect with a scripted stub runner; comparison with a reference interpreter of the scenario language",
+   note=""),
+ "C13": dict(cat="model_checking", ref="DESIGN.md §4 C13",
+   text="Bounded exhaustive exploration on the implementation: scenario call trees with transfers of 0 / 1 wei / more than the balance to child frames, precompiles, code-less accounts, newly created contracts and the calling contract itself, frames that later fail, 1-2 invocations, join-point failures; per account and call index the recorded balance journal must equal [sender before, recipient before, sender after, recipient after] (restricted to the account, immediate repeats collapsed) as computed by the reference interpreter, and no other entry may exist.",
+   tech="stateless exhaustive enumeration of scenario trees x fault vectors, executed on the real EVM + real djpm.runAspect with a scripted stub runner; comparison with a reference interpreter of the scenario language",
+   note=""),
 }
 
 NOT_YET = {}
